@@ -16,14 +16,15 @@ static char *reg_getraw(int c, int *ln)
 
 char *reg_get(int c, int *lnmode)
 {
-	static char ln[1024];
+	static char *ln;
 	static char linno[16];
 	static char colno[16];
 	if (c == '"')
 		c = 0;
 	if (c == ';') {
 		char *s = lbuf_get(xb, xrow);
-		snprintf(ln, sizeof(ln), "%s", s ? s : "");
+		free(ln);
+		ln = uc_dup(s ? s : "");
 		if (strchr(ln, '\n') != NULL)
 			*strchr(ln, '\n') = '\0';
 		if (lnmode != NULL)
